@@ -165,7 +165,7 @@ def main(argv):
             rec = json.load(f)
         bad, _ = run_ops(rec["ops"], rec["seed"], rec["front_end"], rec.get("validate_asl", False))
         same = [b for b in bad if b[0] == rec["rule"] and b[1] == rec.get("witness")]
-        print("replay %s: %s" % (argv[1], "REPRODUCED rule=%s" % rec["rule"] if same else "not reproduced"))
+        print("replay %s: %s" % (argv[1], "REPRODUCED rule=%s%s" % (rec["rule"], common.digest_note(rec, same)) if same else "not reproduced"))
         for b in same[:1]:
             print("  ", b[2][:400])
         return 1 if same else 0
